@@ -1,7 +1,9 @@
 //! Model checker configuration and launching.
 
 use std::cell::RefCell;
+use std::collections::hash_map::DefaultHasher;
 use std::collections::{HashMap, HashSet};
+use std::hash::{Hash, Hasher};
 use std::rc::Rc;
 
 use simcore::cast;
@@ -146,7 +148,12 @@ impl ModelChecker {
         let mut strategy = S::build(strategy_config);
 
         // sort starting states by increasing depth to produce shorter error traces
-        states.sort_by_key(|x| x.depth);
+        // (states of equal depth are ordered by their hash to keep the run order deterministic)
+        states.sort_by_key(|x| {
+            let mut hasher = DefaultHasher::default();
+            x.hash(&mut hasher);
+            (x.depth, hasher.finish())
+        });
         // each run rolls back to its start state, so the state before the runs is restored explicitly
         let initial_state = self.system.get_state();
         for state in states {
